@@ -28,6 +28,7 @@ TOKENS = [
     '\\end{equation}', '\\', 'é', '&', '#', '~', '{a }', '[a]',
     '{verbatim }', '{ equation}', '\\endnote', '\\itemsep', '\r\n', ' \r\n',
     '\x0b', '\xa0', '\u2028',   # blank for str.isspace(), Other for the parser
+    '^^@', '^^?', '^^M', '@', '?',
 ]
 # tokens that leave the C08/C16 input domain (NUL/DEL, bare signature cmds)
 HOSTILE_TOKENS = ['\x00', '\x7f', '\\def', '\\textbf', '\\section', '\\label',
